@@ -169,6 +169,8 @@ pub struct Cfg {
     /// 0: Clone works; 1: `Node::clone` panics at once; 2: it panics after it
     /// has cloned the stored handles
     pub clone_panics: u8,
+    /// FULL histories that also use the handle-consuming ops (C09)
+    pub allow_consume: bool,
     /// the payload's Clone (called by make_mut) runs the value's action script
     /// (re-entrant API use from inside make_mut)
     pub clone_reentrant: bool,
